@@ -177,7 +177,7 @@ def _nontrivial(case, labels):
 
 def _grid(tier, seed):
     cfgs = []
-    S = 400 if tier == "quick" else 1500
+    S = 600 if tier == "quick" else 2000
     idx = 0
     for p in [2, 3, 4, 5, 6, 7, 8, 20, 60]:
         ks = [h / 2.0 for h in range(0, 2 * (p - 1) + 1)] if p <= 8 else [0, 0.5, 2, 3.7, p / 2.0, p - 1]
@@ -218,7 +218,7 @@ def plan(tier, seed):
     nshards = 32 if tier == "quick" else 96
     for k in range(nshards):
         jobs.append({"sub": "grid", "seed": seed, "shard": k, "nshards": nshards, "tier": tier, "cost": 10})
-    n = scaled(1600 if tier == "quick" else 40000)
+    n = scaled(6400 if tier == "quick" else 80000)
     shards = 8 if tier == "quick" else 32
     for k in range(shards):
         jobs.append({"sub": "single", "seed": seed, "shard": k, "n": max(1, n // shards), "cost": 4})
@@ -233,15 +233,21 @@ def run(job):
         for n, case in enumerate(cfgs):
             if n % job["nshards"] != job["shard"]:
                 continue
+            ns = len(case["seeds"])
             try:
                 lab = check(case)
-                acc.record(case, lab, _nontrivial(case, lab), by_construction=True, sample=False)
-                if _nontrivial(case, lab) and len(acc.samples) < 2:
-                    acc.samples.append({**{k: v for k, v in case.items() if k != "seeds"}, "seeds": "%d seeds from %d" % (len(case["seeds"]), case["seeds"][0])})
+                nt = _nontrivial(case, lab)
+                acc.record(case, lab, nt, by_construction=True, sample=False)
+                # every (configuration, seed) pair is one generator call = one evaluation, distinct by construction
+                acc.evaluations += ns - 1
+                if nt:
+                    acc.nt_exhaustive += ns - 1
+                if nt and len(acc.samples) < 2:
+                    acc.samples.append({**{k: v for k, v in case.items() if k != "seeds"}, "seeds": "%d seeds from %d" % (ns, case["seeds"][0])})
             except Violation as v:
                 acc.record(case, [], False)
                 acc.violation(case, v)
-            calls += len(case["seeds"])
+            calls += ns
         acc.extra["generator_calls"] = calls
         acc.exhaustive = False
     else:
